@@ -510,6 +510,8 @@ def execute(case):
     crash = case["crash"]
     k = crash["k"]
     fault = crash.get("fault")
+    if case.get("child"):
+        case = dict(case, honour_pairs=False)        # the child processes take the requests one after the other
     got, info = _run(case, crash, log, res)
     if case.get("child"):
         # cross-check of the crash MODEL (not of the repository): real processes must see what the
@@ -522,6 +524,8 @@ def execute(case):
         if not cboot:
             mine = _norm_ids(got, info.get("ids", {}))
             for n in sorted(set(mine) | set(cgot)):
+                if 1 <= n <= len(ops) and ops[n - 1]["op"] == "save_state":
+                    continue        # its body carries wall-clock time stamps
                 a, b = mine.get(n), cgot.get(n)
                 if a is None or b is None or a[0] != b[0] or a[1] != b[1]:
                     raise HarnessError("in-process restart differs from real child processes at request %d: %r vs %r" % (n, str(a)[:300], str(b)[:300]))
